@@ -1074,6 +1074,94 @@ def _(vm, a, ci):
     return z3.fpRoundToIntegral(z3.RNA(), x)
 
 
+def _fp(vm, x): return z3.FPVal(x, F64) if isinstance(x, float) else x
+
+
+def _total_key(x):
+    """IEEE total order key of a double as a signed 64-bit term / int (sign-magnitude -> two's complement order)"""
+    if isinstance(x, float):
+        import struct
+        b = struct.unpack('<q', struct.pack('<d', x))[0]
+        return b ^ (((b >> 63) & 0xFFFFFFFFFFFFFFFF) >> 1) if b < 0 else b
+    bv = z3.fpToIEEEBV(x)
+    return bv ^ z3.LShR(bv >> 63, 1)
+
+
+@path('<impl f64>::total_cmp', 'f64::total_cmp')
+def _(vm, a, ci):
+    x, y = D(vm, a[0]), D(vm, a[1])
+    if isinstance(x, float) and isinstance(y, float):
+        kx, ky = _total_key(x), _total_key(y)
+        kx = kx - (1 << 64) if kx >= (1 << 63) else kx; ky = ky - (1 << 64) if ky >= (1 << 63) else ky
+        return ordering((kx > ky) - (kx < ky))
+    kx, ky = _total_key(_fp(vm, x)), _total_key(_fp(vm, y))
+    if truth(vm, kx < ky): return ordering(-1)
+    if truth(vm, kx > ky): return ordering(1)
+    return ordering(0)
+
+
+@path('<impl f64>::signum', 'f64::signum')
+def _(vm, a, ci):
+    x = a[0]
+    if isinstance(x, float): return x if x != x else math.copysign(1.0, x)
+    return z3.If(z3.fpIsNaN(x), x, z3.If(z3.fpIsNegative(x), z3.FPVal(-1.0, F64), z3.FPVal(1.0, F64)))
+
+
+@path('<impl f64>::is_sign_positive', 'f64::is_sign_positive')
+def _(vm, a, ci):
+    x = a[0]
+    return math.copysign(1, x) > 0 if isinstance(x, float) else z3.Not(z3.fpIsNegative(x))
+
+
+@path('<impl f64>::min', 'f64::min', '<impl f64>::max', 'f64::max')
+def _(vm, a, ci):
+    x, y = a[0], a[1]
+    if isinstance(x, float) and isinstance(y, float):
+        if x != x: return y
+        if y != y: return x
+        return min(x, y) if ci.method == 'min' else max(x, y)
+    x, y = _fp(vm, x), _fp(vm, y)
+    pick = z3.fpLT(x, y) if ci.method == 'min' else z3.fpGT(x, y)
+    return z3.If(z3.fpIsNaN(x), y, z3.If(z3.fpIsNaN(y), x, z3.If(pick, x, y)))
+
+
+@path('<impl f64>::copysign', 'f64::copysign')
+def _(vm, a, ci):
+    x, y = a[0], a[1]
+    if isinstance(x, float) and isinstance(y, float): return math.copysign(x, y)
+    x, y = _fp(vm, x), _fp(vm, y)
+    return z3.If(z3.fpIsNegative(y) == z3.fpIsNegative(x), x, z3.fpNeg(x))
+
+
+@path('<impl f64>::sqrt', 'f64::sqrt')
+def _(vm, a, ci):
+    x = a[0]
+    if isinstance(x, float): return math.sqrt(x) if x >= 0 else float('nan')
+    return z3.fpSqrt(z3.RNE(), x)
+
+
+@path('<impl f64>::recip', 'f64::recip')
+def _(vm, a, ci): return vm.fbinop('Div', 1.0, a[0])
+
+
+@path('<impl f64>::to_bits', 'f64::to_bits')
+def _(vm, a, ci):
+    x = a[0]
+    if isinstance(x, float):
+        import struct
+        return struct.unpack('<Q', struct.pack('<d', x))[0]
+    return z3.fpToIEEEBV(x)
+
+
+@path('<impl f64>::from_bits', 'f64::from_bits')
+def _(vm, a, ci):
+    b = a[0]
+    if isinstance(b, int):
+        import struct
+        return struct.unpack('<d', struct.pack('<Q', b & 0xFFFFFFFFFFFFFFFF))[0]
+    return z3.fpBVToFP(b, F64)
+
+
 @path('<impl f64>::abs', 'f64::abs')
 def _(vm, a, ci): return abs(a[0]) if isinstance(a[0], float) else z3.fpAbs(a[0])
 
